@@ -432,6 +432,25 @@ def _buffer_reuse(mod, cfg, used, L, ctx, tags):
             raise Violation("snr_array_modified", "a calcTheoretical* call "
                             "changed the SNR array handed to it", tags)
     ctx.label("buffer_reuse_checked")
+    # the SNR values need not be sorted (per-stream SINRs, a descending
+    # sweep): every element is answered on its own
+    if len(used) >= 2:
+        order = list(range(len(used)))
+        order = order[::-1] if len(used) % 2 else order[1::2] + order[0::2]
+        asc = np.array(used, dtype=float)
+        shuf = asc[order]
+        for name, f_obj, extra in (
+                ("SER", mod.calcTheoreticalSER, ()),
+                ("BER", mod.calcTheoreticalBER, ()),
+                ("PER", mod.calcTheoreticalPER, (L,)),
+                ("SE", mod.calcTheoreticalSpectralEfficiency, (L,))):
+            a = np.asarray(f_obj(asc.copy(), *extra), dtype=float)
+            b = np.asarray(f_obj(shuf.copy(), *extra), dtype=float)
+            if b.shape != a.shape or not np.array_equal(a[order], b):
+                raise Violation("unsorted_snr", "%s of an unsorted SNR array "
+                                "is not the element-wise %s (order %r)" %
+                                (name, name, order[:8]), tags)
+        ctx.label("unsorted_snr_checked")
 
 
 def check(case, ctx):
